@@ -58,11 +58,37 @@ def profile(fn_node: ast.AST) -> List[List]:
     return rows
 
 
+def _is_lookup_probe(tr: ast.Try, h: ast.ExceptHandler) -> bool:
+    """`try: v = d[k]  except KeyError: ...` - the get-or-create / cache-probe idiom: the only thing the guarded statement
+    can raise is the subscript itself, and only that exception is caught.  Whether it is written this way, with `in`,
+    `.get()` or `setdefault` is a matter of style, so such handlers are not part of a function's profile."""
+    if set(_type_names(h.type)) - {"KeyError", "IndexError"} or len(tr.body) != 1 or tr.orelse and False:
+        return False
+    st = tr.body[0]
+    v = getattr(st, "value", None)
+    if not isinstance(st, (ast.Assign, ast.AnnAssign, ast.Return, ast.Expr)) or v is None:
+        return False
+    if any(isinstance(x, (ast.Call, ast.Await, ast.Yield, ast.YieldFrom, ast.BinOp)) for x in ast.walk(v)):
+        return False
+    if not isinstance(v, ast.Subscript):
+        return False
+    base = v.value
+    return isinstance(base, ast.Name) or (isinstance(base, ast.Attribute) and isinstance(base.value, ast.Name))
+
+
 def _profile1(fn_node: ast.AST) -> List[List]:
     g = cfg_of(fn_node)
     rows = []
+    probes = set()
+    for t_ in ast.walk(fn_node):
+        if isinstance(t_, ast.Try):
+            for hh in t_.handlers:
+                if _is_lookup_probe(t_, hh):
+                    probes.add(id(hh))
     for h in g.nodes.values():
         if h.kind != "handler":
+            continue
+        if id(h.ast) in probes:
             continue
         r = g.reach([h.id], skip_edge=lambda a, lab, b: lab == "exc")
         resumes_loop = any(hid in r for hid in h.loops[-1:]) if h.loops else False
